@@ -19,7 +19,14 @@ Definition gen_run (reg : list text) (ser : N) (call : bool) (parts : list val) 
    result, or the exception class (ext = raised inside a constructor / __setstate__ / make_exception) *)
 Inductive iobs := IOk (census : list text) | IErr (e : err) (ext : bool) | IErrOther (ext : bool).
 
-Record case := { c_ser : N; c_call : bool; c_reg : list text; c_parts : list val;
+(* the registry each serializer class sees after a history of register / unregister calls, per the generated mode *)
+Definition gen_effective (k : regkind) (h : list regop) (ser : N) : list text :=
+  effective (match k with KD2C => reg_d2c_inplace | KC2D => reg_c2d_inplace end) k h ser.
+
+Record case := { c_ser : N; c_call : bool;
+                 c_hist : list regop;         (* register / unregister calls made before decoding, through either entry point *)
+                 c_c2d : list (text * bool);  (* per harness class: did this serializer's class_to_dict use the converter afterwards *)
+                 c_parts : list val;
                  c_hostile : bool;            (* members were generated that may make a constructor / __setstate__ / setattr fail *)
                  c_obs : iobs; c_convs : list text }.   (* c_convs: tags the registered converter was called with, in order *)
 
@@ -61,7 +68,12 @@ Fixpoint is_prefix (a b : list text) : bool :=
   | _, _ => false
   end.
 
+Definition c_reg (c : case) : list text := gen_effective KD2C (c_hist c) (c_ser c).
+Definition c2d_ok (c : case) : bool :=
+  forallb (fun p => Bool.eqb (mem (fst p) (gen_effective KC2D (c_hist c) (c_ser c))) (snd p)) (c_c2d c).
+
 Definition check_case (c : case) : bool :=
+  c2d_ok c &&
   let '(lg, o) := gen_run (c_reg c) (c_ser c) (c_call c) (c_parts c) in
   (* an external failure (constructor, __setstate__, setattr rejected its arguments) is accepted where the model
      says a construction was attempted and the case was generated as hostile to constructors *)
@@ -77,4 +89,4 @@ Definition check_case (c : case) : bool :=
 (* diagnostics for replays *)
 Definition model_view (c : case) :=
   let '(lg, o) := gen_run (c_reg c) (c_ser c) (c_call c) (c_parts c) in
-  (convs_of lg, constructs lg, match o with Ok parts => inl (model_census parts) | Rej e => inr e end).
+  (c_reg c, gen_effective KC2D (c_hist c) (c_ser c), convs_of lg, constructs lg, match o with Ok parts => inl (model_census parts) | Rej e => inr e end).
